@@ -10,6 +10,7 @@ package main
 
 import (
 	"go/ast"
+	"go/parser"
 	"go/token"
 	"strings"
 )
@@ -62,17 +63,27 @@ func extractOptions(files map[string]*srcFile) (map[string]lval, []string) {
 	vals["setters"] = lKeyed(setters)
 	vals["setterBodies"] = lKeyed(bodies)
 
-	// c. defaults, optionsFields
-	vals["defaults"] = lPairs(readDefaults(findFn("getDefaultOptions", op)))
-	if fs, ok := structFields(op, "options"); ok {
-		vals["optionsFields"] = lPairs(fs)
+	// c. defaults (of the function getOpts starts from, whatever its name), optionsFields
+	getOpts := findFn("getOpts", op)
+	skipsNil, defaultsFn := getOptsShape(getOpts)
+	fields, haveFields := structFields(op, "options")
+	switch {
+	case getOpts == nil:
+		vals["defaults"] = lPairs([][2]string{{unk("func getOpts not found"), unk("missing")}})
+	case defaultsFn == "":
+		vals["defaults"] = lPairs([][2]string{{unk("getOpts does not start with `opts := F()`"), unk("missing")}})
+	default:
+		vals["defaults"] = lPairs(readDefaults(defaultsFn, findFn(defaultsFn, op, bx, fl), fields))
+	}
+	if haveFields {
+		vals["optionsFields"] = lPairs(fields)
 	} else {
 		vals["optionsFields"] = lPairs([][2]string{{unk("struct type options not found"), unk("missing")}})
 	}
 
 	// d. getOpts
 	vals["getOptsBody"] = lStrs(fnBodyToks("getOpts", op))
-	vals["getOptsSkipsNil"] = lBool(getOptsSkipsNil(findFn("getOpts", op)))
+	vals["getOptsSkipsNil"] = lBool(skipsNil)
 
 	// e, f. CreateEvaluator
 	ce := findFn("CreateEvaluator", bx)
@@ -199,10 +210,42 @@ func readSetter(f *fnDecl) (fieldsSet, body []string) {
 	return fieldsSet, body
 }
 
-// readDefaults reads `return options{ k: v, ... }` of getDefaultOptions.
-func readDefaults(f *fnDecl) [][2]string {
+// zeroValueText is the text of the zero value of a field type, as far as the
+// type expression alone tells it: "0" for the integer types, "\"\"" for string,
+// "false" for bool, "nil" for pointers, functions, slices, maps, channels and
+// interfaces.  For any other type (a named type that is not predeclared) it is
+// "zero(T)".
+func zeroValueText(typ string, e ast.Expr) string {
+	switch t := e.(type) {
+	case *ast.StarExpr, *ast.FuncType, *ast.MapType, *ast.ChanType, *ast.InterfaceType:
+		return "nil"
+	case *ast.ArrayType:
+		if t.Len == nil {
+			return "nil"
+		}
+	case *ast.Ident:
+		switch t.Name {
+		case "int", "int8", "int16", "int32", "int64", "uint", "uint8", "uint16", "uint32", "uint64", "uintptr", "byte", "rune":
+			return "0"
+		case "string":
+			return "\"\""
+		case "bool":
+			return "false"
+		case "any", "error":
+			return "nil"
+		}
+	}
+	return "zero(" + typ + ")"
+}
+
+// readDefaults reads `return options{ k: v, ... }` of the defaults function and
+// lists (field, value text) for EVERY field of struct options, in the order of
+// the struct: the value given by the literal, or else the zero value of the
+// field's type (zeroValueText), which is what Go puts there.  So a literal that
+// spells out a zero value and one that leaves the field out give the same table.
+func readDefaults(name string, f *fnDecl, fields [][2]string) [][2]string {
 	if f == nil || f.fd.Body == nil {
-		return [][2]string{{unk("func getDefaultOptions not found"), unk("missing")}}
+		return [][2]string{{unk("func " + name + " not found"), unk("missing")}}
 	}
 	sf := f.sf
 	r := singleReturn(f.fd.Body.List, 1)
@@ -214,7 +257,34 @@ func readDefaults(f *fnDecl) [][2]string {
 		t := unk(sf.stmtsOneLine(f.fd.Body.List))
 		return [][2]string{{t, t}}
 	}
-	return keyValues(sf, cl)
+	given := keyValues(sf, cl)
+	var out [][2]string
+	used := make([]bool, len(given))
+	for _, fld := range fields {
+		found := false
+		for i, kv := range given {
+			if kv[0] == fld[0] {
+				out = append(out, kv)
+				used[i], found = true, true
+			}
+		}
+		if !found {
+			typ, err := parser.ParseExpr(fld[1]) // structFields gives the type as text
+			if err != nil {
+				out = append(out, [2]string{fld[0], unk("type " + fld[1])})
+				continue
+			}
+			out = append(out, [2]string{fld[0], zeroValueText(fld[1], typ)})
+		}
+	}
+	// anything that is not `field: value` for a field of the struct (positional
+	// elements, unknown keys) is listed as it is
+	for i, kv := range given {
+		if !used[i] {
+			out = append(out, kv)
+		}
+	}
+	return out
 }
 
 // keyValues lists (key, value text) of a struct literal.
@@ -236,35 +306,60 @@ func keyValues(sf *srcFile, cl *ast.CompositeLit) [][2]string {
 	return out
 }
 
-// getOptsSkipsNil: getOpts has exactly one range loop, it is
-// `for _, o := range <variadic parameter>` and its body is exactly
-// `if o != nil { o(&opts) }`.
-func getOptsSkipsNil(f *fnDecl) bool {
-	if f == nil || f.fd.Body == nil {
-		return false
+// getOptsShape reads getOpts.  skipsNil: its body is exactly
+//
+//	opts := F()
+//	for _, o := range <the variadic parameter> { if o != nil { o(&opts) } }
+//	return opts
+//
+// where the loop body may also be written `if o == nil { continue }; o(&opts)`.
+// defaultsFn is F, the function the options start from ("" if the first
+// statement is not `opts := F()`).
+func getOptsShape(f *fnDecl) (skipsNil bool, defaultsFn string) {
+	if f == nil || f.fd.Body == nil || len(f.fd.Body.List) == 0 {
+		return false, ""
 	}
 	sf := f.sf
-	var loops []*ast.RangeStmt
-	ast.Inspect(f.fd.Body, func(n ast.Node) bool {
-		if r, ok := n.(*ast.RangeStmt); ok {
-			loops = append(loops, r)
-		}
-		return true
-	})
-	if len(loops) != 1 {
-		return false
+	stmts := f.fd.Body.List
+	// opts := F()
+	as, ok := stmts[0].(*ast.AssignStmt)
+	if !ok || as.Tok != token.DEFINE || len(as.Lhs) != 1 || len(as.Rhs) != 1 {
+		return false, ""
 	}
-	r := loops[0]
-	v, ok := r.Value.(*ast.Ident)
-	if !ok || r.Tok != token.DEFINE || !isIdent(r.Key, "_") {
-		return false
+	v, isID := as.Lhs[0].(*ast.Ident)
+	call, isCall := as.Rhs[0].(*ast.CallExpr)
+	if !isID || v.Name == "_" || !isCall || len(call.Args) != 0 {
+		return false, ""
+	}
+	fn, isID := call.Fun.(*ast.Ident)
+	if !isID {
+		return false, ""
+	}
+	defaultsFn = fn.Name
+	if len(stmts) != 3 {
+		return false, defaultsFn
+	}
+	// for _, o := range opt { ... }
+	r, ok := stmts[1].(*ast.RangeStmt)
+	if !ok {
+		return false, defaultsFn
+	}
+	o, ok := r.Value.(*ast.Ident)
+	if !ok || r.Tok != token.DEFINE || !isIdent(r.Key, "_") || o.Name == "_" || o.Name == v.Name {
+		return false, defaultsFn
 	}
 	ps := paramNames(f.fd.Type)
-	if len(ps) != 1 || !isIdent(r.X, ps[0]) {
-		return false
+	if len(ps) != 1 || !isIdent(r.X, ps[0]) || ps[0] == o.Name || ps[0] == v.Name {
+		return false, defaultsFn
 	}
-	o := v.Name
-	return sameStrings(sf.bodyToks(r.Body), []string{"if", o, "!=", "nil", "{", o, "(", "&", "opts", ")", "}"})
+	body := sf.bodyToks(r.Body)
+	guarded := []string{"if", o.Name, "!=", "nil", "{", o.Name, "(", "&", v.Name, ")", "}"}
+	skipping := []string{"if", o.Name, "==", "nil", "{", "continue", "}", o.Name, "(", "&", v.Name, ")"}
+	if !sameStrings(body, guarded) && !sameStrings(body, skipping) {
+		return false, defaultsFn
+	}
+	// return opts
+	return sameStrings(sf.toks(stmts[2]), []string{"return", v.Name}), defaultsFn
 }
 
 // createPlumbing lists the key/value pairs of the first `&Evaluator{...}` in
